@@ -710,8 +710,14 @@ class WaveShareNmea2000Gateway(AsyncIOClient):
             start = self._buffer.find(b"\xaa\x55")
 
             if start == -1:
-                # If start marker not found, wait for more data
+                # If start marker not found, wait for more data. Nothing in the buffer can become a packet any more,
+                # except a trailing 0xAA that may be the first half of a marker: do not let noise pile up.
+                self._buffer = self._buffer[-1:] if self._buffer.endswith(b"\xaa") else bytearray()
                 break
+            if start > 0:
+                # Drop the noise in front of the marker
+                del self._buffer[:start]
+                start = 0
             if start + 20 > len(self._buffer):
                 # Not enough data for a full packet yet
                 break
